@@ -89,6 +89,7 @@ func runC14(c *core.Ctx) {
 	// published (shared with C02), and the backend list of a sub-cluster must be rebuilt in an
 	// order derived from the new configuration.
 	publishedSorted(c, "published-canonical")
+	checkComparators(c, "canonical-key")
 	if up := c.P.Func("bfe_balance/bal_slb", "BalanceRR.Update"); up == nil {
 		c.Missing("bfe_balance/bal_slb.BalanceRR.Update")
 	} else if bf, ok := c.P.Obj("bfe_balance/bal_slb", "BalanceRR.backends").(*types.Var); ok {
